@@ -11,9 +11,11 @@ package main
 import (
 	"bytes"
 	"fmt"
+	"math"
 	"math/rand/v2"
 	"reflect"
 	"strings"
+	"time"
 
 	json "github.com/go-json-experiment/json"
 	"github.com/go-json-experiment/json/internal/jsonflags"
@@ -799,6 +801,56 @@ func c19NonInterference(c *Ctx) {
 // ---- (i) an option explicitly set to its default value behaves like the option being absent, and
 // X(true) followed by X(false) like X(false): the behavioural side of "last setter wins".
 // SpaceAfterColon/SpaceAfterComma are excluded: under Multiline an explicit false is documented to differ from absent.
+// c19F: every kind of `format`-tagged field (needs ExperimentalSupportFormatTag), so that options read by the format
+// specific code paths (time, duration, bytes, nil containers, non-finite floats) are exercised too.
+type c19F struct {
+	T1 time.Time      `json:"t1,format:unix"`
+	T2 time.Time      `json:"t2,format:unixmilli"`
+	T3 time.Time      `json:"t3,format:unixmicro"`
+	T4 time.Time      `json:"t4,format:unixnano"`
+	T5 time.Time      `json:"t5,format:RFC3339"`
+	T6 time.Time      `json:"t6"`
+	T7 time.Time      `json:"t7,string,format:unix"`
+	T8 time.Time      `json:"t8,format:DateOnly"`
+	D1 time.Duration  `json:"d1,format:sec"`
+	D2 time.Duration  `json:"d2,format:milli"`
+	D3 time.Duration  `json:"d3,format:nano"`
+	D4 time.Duration  `json:"d4,format:units"`
+	D5 time.Duration  `json:"d5,format:iso8601"`
+	D6 time.Duration  `json:"d6,string,format:micro"`
+	B1 []byte         `json:"b1,format:base64url"`
+	B2 []byte         `json:"b2,format:hex"`
+	B3 [2]byte        `json:"b3,format:array"`
+	B4 []byte         `json:"b4,format:base32"`
+	S1 []int          `json:"s1,format:emitnull"`
+	S2 []int          `json:"s2,format:emitempty"`
+	M1 map[string]int `json:"m1,format:emitnull"`
+	M2 map[string]int `json:"m2,format:emitempty"`
+	N  int            `json:"n,string"`
+	F  float64        `json:"f,format:nonfinite"`
+	P  *time.Time     `json:"p,format:unixmilli"`
+	L  []time.Time    `json:"l,format:unix"`
+}
+
+func c19FVal(r *rand.Rand) any {
+	tm := func() time.Time { return time.Unix(r.Int64N(4e9)-1e9, int64(r.IntN(2))*r.Int64N(1e9)).UTC() }
+	du := func() time.Duration { return time.Duration(r.Int64N(1e15) - 5e14) }
+	f := c19F{T1: tm(), T2: tm(), T3: tm(), T4: tm(), T5: tm(), T6: tm(), T7: tm(), T8: time.Date(1990+r.IntN(60), 3, 7, 0, 0, 0, 0, time.UTC),
+		D1: du(), D2: du(), D3: du(), D4: du(), D5: du(), D6: du(), B1: []byte("\xfb\xff?"), B2: []byte("hi"), B3: [2]byte{1, 2}, N: r.IntN(100),
+		F: []float64{0, 1.5, math.Inf(1), math.Inf(-1), math.NaN()}[r.IntN(4)]}
+	if r.IntN(2) == 0 {
+		f.S1, f.S2, f.M1, f.M2 = []int{}, []int{1}, map[string]int{}, map[string]int{"k": 1}
+		f.B4 = []byte("abc")
+		t := tm()
+		f.P = &t
+		f.L = []time.Time{tm()}
+	}
+	if r.IntN(3) == 0 {
+		return []c19F{f}
+	}
+	return f
+}
+
 func c19ExplicitDefault(c *Ctx) {
 	n := c.N(4000, 300000)
 	var ctors []boolCtor
@@ -813,10 +865,16 @@ func c19ExplicitDefault(c *Ctx) {
 		v := c19Val(c.Rng)
 		bc := ctors[c.Rng.IntN(len(ctors))]
 		base := []json.Options{json.Deterministic(true)}
+		if i%2 == 1 { // format-tagged fields: time, duration, bytes, nil containers
+			v = c19FVal(c.Rng)
+			base = append(base, json.ExperimentalSupportFormatTag(true))
+			c.Hit("explicit-default-format-tagged")
+		}
 		variants := [][]json.Options{
 			append(base[:len(base):len(base)], bc.f(false)),
 			append(base[:len(base):len(base)], bc.f(true), bc.f(false)),
 			append(append([]json.Options{bc.f(true)}, base...), json.DefaultOptionsV2(), json.Deterministic(true)),
+			append([]json.Options{bc.f(false)}, base...),
 			append(base[:len(base):len(base)], json.JoinOptions(bc.f(true), bc.f(false))),
 		}
 		isV1 := false
@@ -824,7 +882,7 @@ func c19ExplicitDefault(c *Ctx) {
 			isV1 = isV1 || n == bc.name
 		}
 		if !isV1 { // DefaultOptionsV2 only cancels the v1 flags
-			variants = append(variants[:2:2], variants[3])
+			variants = append(variants[:2:2], variants[3:]...)
 		}
 		b0, e0 := json.Marshal(v, base...)
 		for vi, opts := range variants {
@@ -833,7 +891,11 @@ func c19ExplicitDefault(c *Ctx) {
 				c.Violate("explicit-default-marshal", bc.name, nil, map[string]any{"variant": vi, "value": fmt.Sprintf("%#v", v), "absent": string(b0), "explicit": string(b1), "e0": fmt.Sprint(e0), "e1": fmt.Sprint(e1)})
 			}
 		}
+		if e0 != nil {
+			c.Hit("explicit-default-marshal-error")
+		}
 		if e0 == nil {
+			c.Hit("explicit-default-marshal-ok")
 			text := b0
 			if c.Rng.IntN(5) == 0 && len(text) > 2 {
 				text = text[:c.Rng.IntN(len(text))]
